@@ -95,8 +95,8 @@ def finish_case(rng, P, root=None):
             req[t] = (nd['rg'] and nd.get('dt', 'f64') != 'i64') if nd['kind'] == 'leaf' else any(req.get(i, False) for i in nd['ins'])
     interior = [t for t in range(nt) if t != root and req.get(t) and P.nodes[P.owner[t]]['kind'] == 'op']
     pre = []
-    if interior and rng.chance(.5):
-        t0 = rng.pick(interior)
+    if rng.chance(.5):
+        t0 = rng.pick(interior + [root, root] if interior else [root])      # ... or from the ROOT itself, with another upstream gradient
         ctx = rng.chance(.3)
         pre = (['t ctx new rg', 't ctx enter 0'] if ctx else []) + \
               [f"t bw {t0} {show_ints(P.tshape[t0])} {show_floats(gen_dag.rand_data(rng, P.tshape[t0], -2, 2))}"] + (['t ctx exit 0'] if ctx else []) + \
